@@ -388,7 +388,10 @@ func convertUnionToConstraint[T any, R any](value any) R {
 	if reflect.TypeOf(value).Kind() == reflect.Pointer {
 		rv := reflect.ValueOf(value)
 		if !rv.IsNil() {
-			return any(rv.Elem().Interface()).(R) //nolint:unconvert // generic constraint conversion
+			// A pointer to a nil interface dereferences to a value without dynamic
+			// type, which cannot be asserted to R (not even to any): zero R.
+			r, _ := any(rv.Elem().Interface()).(R) //nolint:unconvert // generic constraint conversion
+			return r
 		}
 		var zero R
 		return zero
